@@ -278,3 +278,208 @@ def is_defensive_fact(func, c, pol):
     if op == "truth" and is_var(l) and strip(l)["n"] in pn and strip(l)["ty"].endswith("*"):
         return True
     return False
+
+
+# --------------------------------------------------------------------------
+# gates: branches on the result of a call, and edge-avoiding reachability
+# --------------------------------------------------------------------------
+
+def _result_holder(func, blk, callnode):
+    """path of the variable the call's result is assigned to inside blk (last such
+    assignment, not overwritten before the terminator), or None."""
+    holder = None
+    for el in blk.els:
+        if el["k"] == "asg" and el["e"]["op"] == "=" and el["e"].get("r") is not None:
+            r = strip(el["e"]["r"])
+            if r is not None and r.get("k") == "call" and r.get("id") == callnode.get("id"):
+                holder = path(el["e"]["l"])
+                continue
+        if el["k"] == "decl":
+            for v in el["vars"]:
+                r = strip(v.get("init")) if v.get("init") else None
+                if r is not None and r.get("k") == "call" and r.get("id") == callnode.get("id"):
+                    holder = v["n"]
+                    break
+            else:
+                if holder and any(v["n"] == holder for v in el["vars"]):
+                    holder = None
+            continue
+        if holder and holder in written_vars(el):
+            holder = None
+    return holder
+
+
+def call_result_branches(func, *callees):
+    """branches whose condition tests the result of a call to one of `callees`:
+    list of dict(block, call, op, rhs, true_succ, false_succ); (op, rhs) is the normalised
+    comparison on the call result that HOLDS on the true edge ('truth'/'false' for bool tests)."""
+    out = []
+    for bid in func.rpo():
+        blk = func.blocks[bid]
+        br = func.branch(blk)
+        if not br:
+            continue
+        cond, ts, fs = br
+        calls_here = [el["e"] for el in blk.els if el["k"] == "call" and el["e"].get("callee") in callees]
+        # a call evaluated in a predecessor block can also be the condition (`a && f()` splits blocks)
+        for c, p in atoms(cond, True):
+            op, l, r = norm_cmp(c, p)
+            ls = strip(l)
+            hit = None
+            if ls is not None and ls.get("k") == "call" and ls.get("callee") in callees:
+                hit = ls
+            elif ls is not None:
+                lp = path(ls)
+                for cn in calls_here:
+                    if lp is not None and _result_holder(func, blk, cn) == lp:
+                        hit = cn
+            if hit is not None:
+                full = func.call_by_id(hit.get("id"))
+                out.append({"block": blk, "call": full[2] if full else hit, "op": op, "rhs": r, "true": ts, "false": fs})
+    return out
+
+
+def status_pass_edge(g, success=("ARES_SUCCESS", "ARES_CONN_ERR_SUCCESS", "ARES_TRUE")):
+    """for a call-result branch g: (pass_succ, fail_succ) where pass = callee reported success/true; None if unclear."""
+    op, rhs = g["op"], g["rhs"]
+    if op == "truth":
+        return g["true"], g["false"]
+    if op == "false":
+        return g["false"], g["true"]
+    nm = name_of_const(rhs) if rhs is not None else None
+    if nm in success:
+        if op == "==":
+            return g["true"], g["false"]
+        if op == "!=":
+            return g["false"], g["true"]
+    if rhs is not None and is_null(rhs):   # pointer result
+        if op == "!=":
+            return g["true"], g["false"]
+        if op == "==":
+            return g["false"], g["true"]
+    return None
+
+
+def reach_avoiding(func, start, avoid_edges=(), barrier=None, start_idx=0):
+    """blocks whose START is reachable from (start block, element start_idx) without traversing an edge
+    in avoid_edges and without passing a barrier element.  Returns dict block -> predecessor (for trails);
+    the start block itself is included only if re-entered."""
+    avoid = set(avoid_edges)
+    pred = {}
+    work = [(start, start_idx, None)]
+    first = True
+    while work:
+        b, si, frm = work.pop()
+        if not first:
+            if b in pred:
+                continue
+            pred[b] = frm
+        first = False
+        blk = func.blocks[b]
+        blocked = False
+        if barrier:
+            for j in range(si, len(blk.els)):
+                if barrier(blk.els[j]):
+                    blocked = True
+                    break
+        if blocked:
+            continue
+        for s in func.succ(b):
+            if (b, s) in avoid:
+                continue
+            if s not in pred:
+                work.append((s, 0, b))
+    return pred
+
+
+def trail_to(pred, target, start):
+    t = [target]
+    seen = {target}
+    while pred.get(t[-1]) is not None and pred[t[-1]] not in seen:
+        t.append(pred[t[-1]])
+        seen.add(t[-1])
+    t.reverse()
+    return t
+
+
+def element_reachable_avoiding(func, tb, ti, avoid_edges, barrier=None):
+    """is element (tb, ti) reachable from function entry without the avoided edges / barrier elements?
+    returns trail (list of blocks) or None"""
+    tb = tb.id if isinstance(tb, Block) else tb
+    pred = reach_avoiding(func, func.entry, avoid_edges, barrier)
+    ok = (tb == func.entry) or (tb in pred)
+    if not ok:
+        return None
+    if barrier:
+        blk = func.blocks[tb]
+        for j in range(0, ti if isinstance(ti, int) else len(blk.els)):
+            if barrier(blk.els[j]):
+                return None
+    return trail_to(pred, tb, func.entry)
+
+
+# --------------------------------------------------------------------------
+# path-sensitive gate flow: pointer null-ness of chosen locals + set of gates passed
+# --------------------------------------------------------------------------
+
+def flow_with_gates(func, gates, null_vars=(), cap=512):
+    """gates: {name: (block_id, pass_succ)}.  Tracks for each path which gates' pass edges were
+    taken and the NULL-ness ('N','NN','?') of the locals in null_vars (refined on truth tests and
+    comparisons with NULL, reset on assignment).  Returns forward_states map; a state is
+    (frozenset(passed), tuple(nullness in order of sorted(null_vars)))."""
+    nv = sorted(null_vars)
+    idx = {n: k for k, n in enumerate(nv)}
+    by_block = {}
+    for name, (bid, ps) in gates.items():
+        by_block.setdefault(bid, []).append((name, ps))
+
+    def transfer(st, blk, i, el):
+        passed, nul = st
+        w = set()
+        if el["k"] == "decl":
+            for v in el["vars"]:
+                if v["n"] in idx:
+                    nl = list(nul)
+                    nl[idx[v["n"]]] = "N" if (v.get("init") is not None and is_null(v["init"])) else "?"
+                    nul = tuple(nl)
+        elif el["k"] == "asg":
+            p = path(el["e"]["l"])
+            if p in idx:
+                nl = list(nul)
+                nl[idx[p]] = "N" if (el["e"]["op"] == "=" and is_null(el["e"].get("r"))) else "?"
+                nul = tuple(nl)
+        elif el["k"] == "call":
+            for a in addr_taken_args(el["e"]):
+                if a in idx:
+                    nl = list(nul)
+                    nl[idx[a]] = "?"
+                    nul = tuple(nl)
+        return [(passed, nul)]
+
+    def refine(st, cond, pol, blk):
+        passed, nul = st
+        nl = list(nul)
+        for c, p in atoms(cond, pol):
+            op, l, r = norm_cmp(c, p)
+            v = path(l) if l is not None else None
+            if v in idx:
+                want = None
+                if op == "truth" or (op == "!=" and r is not None and is_null(r)):
+                    want = "NN"
+                elif op == "false" or (op == "==" and r is not None and is_null(r)):
+                    want = "N"
+                if want:
+                    cur = nl[idx[v]]
+                    if cur != "?" and cur != want:
+                        return None
+                    nl[idx[v]] = want
+        br = func.branch(blk)
+        if blk.id in by_block and br:
+            succ = br[1] if pol else br[2]
+            for name, ps in by_block[blk.id]:
+                if ps == succ and br[1] != br[2]:
+                    passed = passed | {name}
+        return (passed, tuple(nl))
+
+    init = (frozenset(), tuple("?" for _ in nv))
+    return forward_states(func, init, transfer, refine, cap=cap)
